@@ -277,3 +277,4 @@ m("c02-yield-push-before-switch", "src/include/abti_ythread.h",
 m("c02-wrapper-swapped-ctx", "src/include/abtd_fcontext.h",
   """    switch_fcontext(&p_new->ctx, &p_old->ctx);""",
   """    switch_fcontext(&p_old->ctx, &p_new->ctx);""", "C02.R1")
+revert("f2-malloc-stack-free-base", "163ff12", "C15.R1")
